@@ -200,3 +200,48 @@ Proof.
   - rewrite fixed_short by lia. unfold repeatN. apply null_terminated_pad. assumption.
   - rewrite fixed_short by lia. unfold repeatN. apply null_terminated_pad. assumption.
 Qed.
+
+(* ---- the decoder is total: it never panics, on any input ---------------- *)
+Lemma np_bind {A B} (o : outcome A) (f : A -> outcome B) :
+  is_panic o = false -> (forall a, is_panic (f a) = false) -> is_panic (obind o f) = false.
+Proof. destruct o; cbn; auto. Qed.
+
+Lemma np_get_u8 l : is_panic (get_u8 l) = false.
+Proof. destruct l; reflexivity. Qed.
+Lemma np_get_bytes n l : is_panic (get_bytes n l) = false.
+Proof. unfold get_bytes. destruct (n <=? lenN l); reflexivity. Qed.
+Lemma np_get_be n l : is_panic (get_be n l) = false.
+Proof. unfold get_be. apply np_bind; [apply np_get_bytes|]. intros [b r]. reflexivity. Qed.
+
+Lemma np_parse_options fuel : forall l acc, is_panic (parse_options fuel l acc) = false.
+Proof.
+  induction fuel as [|f IH]; intros l acc; [reflexivity|].
+  cbn [parse_options]. destruct l as [|x r]; [reflexivity|].
+  destruct (x =? 0); [apply IH|]. destruct (x =? 255); [reflexivity|].
+  apply np_bind; [apply np_get_u8|]. intros [len r1].
+  apply np_bind; [apply np_get_bytes|]. intros [v r2]. apply IH.
+Qed.
+
+Lemma decode_total b : is_panic (decode b) = false.
+Proof.
+  unfold decode.
+  repeat (apply np_bind; [first [apply np_get_u8 | apply np_get_be | apply np_get_bytes]|]; intros [? ?]).
+  destruct (16 <? _); [reflexivity|].
+  repeat (apply np_bind; [first [apply np_get_u8 | apply np_get_be | apply np_get_bytes]|]; intros [? ?]).
+  destruct (negb _); [reflexivity|].
+  apply np_bind; [apply np_parse_options|]. intro. reflexivity.
+Qed.
+
+(* the fuel given to parse_options by decode is never exhausted: the only way
+   to return Err E_EOF is a genuinely truncated option area *)
+Lemma parse_options_fuel_irrelevant f1 f2 l acc :
+  (length l < f1)%nat -> (length l < f2)%nat -> parse_options f1 l acc = parse_options f2 l acc.
+Proof.
+  revert f2 l acc. induction f1 as [|f1 IH]; intros f2 l acc H1 H2; [lia|].
+  destruct f2 as [|f2]; [lia|]. cbn [parse_options].
+  destruct l as [|x r]; [reflexivity|]. cbn [length] in *.
+  destruct (x =? 0); [apply IH; lia|]. destruct (x =? 255); [reflexivity|].
+  destruct r as [|len r1]; [reflexivity|]. cbn [get_u8 obind length] in *.
+  unfold get_bytes. destruct (len <=? lenN r1) eqn:E; [|reflexivity]. cbn [obind].
+  apply IH; unfold dropN; rewrite skipn_length; lia.
+Qed.
